@@ -519,6 +519,62 @@ fn check() {
         }
     }
 
+
+    // ---- (7) long runs through ONE table, as a connection that stays in use: R well-formed frames from one writer
+    //      counter (past the wrap of the 16-bit id), each complete before the next starts; the reassembly timeout is
+    //      long (nothing is pending, nothing expires), the table's timer runs every `tick` frames or never. Every frame
+    //      comes out exactly once, at its last fragment - however many frames the table has seen before.
+    let runs: Vec<(usize, usize, usize, bool)> = if chk.thorough() {
+        vec![(140_000, 2, 0, false), (70_000, 3, 100, false), (70_000, 3, 1, true), (70_000, 2, 1000, true), (200_000, 4, 7, false)]
+    } else {
+        vec![(70_000, 2, 0, false), (70_000, 3, 100, true), (5_000, 3, 1, false)]
+    };
+    let mut long_frames = 0u64;
+    for (r, nfrag, tick, reversed) in &runs {
+        ctr.seqs.fetch_add(1, Ordering::Relaxed);
+        let mut real: Fragments<TB> = Fragments::new(Duration::from_secs(3600));
+        let mut id = 65000u16;
+        let mut bad: Option<String> = None;
+        for n in 0..*r {
+            let body = pattern(4 * (*nfrag - 1) + 1 + n % 4, (n % 251) as u8);
+            let mut fr = frags_of(8, &mut id, body.clone());
+            if fr.len() != *nfrag {
+                machinery(format!("long run: {} fragments instead of {}", fr.len(), nfrag));
+            }
+            if *reversed {
+                fr.reverse();
+            }
+            let last = fr.len() - 1;
+            for (i, d) in fr.into_iter().enumerate() {
+                ctr.steps.fetch_add(1, Ordering::Relaxed);
+                let got = match catch(|| real.reassemble(d.clone())) {
+                    Ok(g) => g.map(|t| t.0),
+                    Err(p) => {
+                        bad = Some(format!("frame #{n}: reassemble panicked: {p}"));
+                        break;
+                    }
+                };
+                let want = if i == last { Some(body.clone()) } else { None };
+                if got != want {
+                    bad = Some(format!("frame #{n} (of {nfrag} fragments, id {}), fragment {i}: {} came out, expected {}", id.wrapping_sub(1), got.as_ref().map(|g| format!("{} bytes", g.len())).unwrap_or("nothing".into()), want.as_ref().map(|g| format!("the frame of {} bytes", g.len())).unwrap_or("nothing yet".into())));
+                    break;
+                }
+            }
+            if bad.is_some() {
+                break;
+            }
+            long_frames += 1;
+            if *tick > 0 && n % *tick == *tick - 1 {
+                real.timer();
+            }
+        }
+        ctr.outcomes.add(&(r, nfrag, tick, reversed, bad.is_some()));
+        if let Some(b) = bad {
+            chk.violation("fragment.long-run", "well-formed-frame-lost-or-changed", format!("{r} frames of {nfrag} fragments through one table (timer every {tick} frames, fragments {}): {b}", if *reversed { "last first" } else { "in order" }), json!({"frames": r, "fragments_per_frame": nfrag, "timer_every": tick, "reversed": reversed}));
+        }
+    }
+    samples.push(json!({"long_runs": runs.iter().map(|r| format!("{} frames x {} fragments, timer every {}", r.0, r.1, r.2)).collect::<Vec<_>>(), "frames": long_frames}));
+
     let seqs = ctr.seqs.load(Ordering::Relaxed);
     let steps = ctr.steps.load(Ordering::Relaxed);
     if chk.violation_count() == 0 && (seqs < 5000 || ctr.outcomes.len() < 10) {
@@ -528,7 +584,7 @@ fn check() {
         "exhaustive": true,
         "states": ctr.outcomes.len(), "transitions": steps, "traces_validated_against_impl": seqs,
         "evaluations": seqs, "distinct_nontrivial": ctr.outcomes.len(),
-        "rule": "datagram sequences fed to a fresh real Fragments instance and to the list reference, compared after every datagram. distinct = distinct output lists. grid: 13 MTUs x boundary sizes x {transparent buffer, real Frame}; all permutations of n<=6 (thorough 7) fragments x one duplicate of any fragment at any position; all arrival orders of 2-3 frames; 10 malformed datagrams (pairs of them) at every position; a fragment claiming another total (7 totals x seq) for the id of a frame whose collection has begun, at every later position x every arrival order x a bystander frame: the frame still comes out exactly once; expiry sequences over 5 events",
+        "rule": "datagram sequences fed to a fresh real Fragments instance and to the list reference, compared after every datagram. distinct = distinct output lists. grid: 13 MTUs x boundary sizes x {transparent buffer, real Frame}; all permutations of n<=6 (thorough 7) fragments x one duplicate of any fragment at any position; all arrival orders of 2-3 frames; 10 malformed datagrams (pairs of them) at every position; a fragment claiming another total (7 totals x seq) for the id of a frame whose collection has begun, at every later position x every arrival order x a bystander frame: the frame still comes out exactly once; expiry sequences over 5 events; long runs of up to 70 000 (thorough 200 000) well-formed frames of 2-4 fragments through one table, past the wrap of the id, timer never / every k frames: each comes out exactly once at its last fragment",
         "grid_cells": grid_cells, "sequences": seqs, "datagrams_fed": steps,
         "expiry_sequences": expiry.0, "expiry_discarded_for_timing": expiry.1,
         "samples": samples,
